@@ -411,22 +411,31 @@ def check_forwarding_calls(ix, rep, name_filter, rule='R-FWD'):
             params = [a.arg for a in f.node.args.args[1:]]
             if not params:
                 continue
+            _spec, _per = _interp_attrs(ix)
+            _attrs = sorted(set().union(*_per.values()))
             for c in ast.walk(f.node):
-                if isinstance(c, ast.Call) and isinstance(c.func, ast.Attribute) and c.func.attr == mname and isinstance(c.func.value, ast.Attribute) \
-                        and isinstance(c.func.value.value, ast.Name) and c.func.value.value.id == 'self' and c.func.value.attr.endswith('interpreter'):
+                if not (isinstance(c, ast.Call) and isinstance(c.func, ast.Attribute) and c.func.attr == mname):
+                    continue
+                _kind = _resolve_receiver(ix, _spec, f, c.func.value, _attrs)
+                if _kind is None:
+                    continue
+                _targets = [_kind[1]] if _kind[0] == 'one' else list(_kind[1])
+                for _t in _targets:
+                    class _V(object):
+                        attr = _t
                     n += 1
                     rep.analysed(f)
                     rep.unit(f.module.rel)
                     got = [a.id if isinstance(a, ast.Name) else ast.unparse(a) for a in c.args] + ['%s=%s' % (k.arg, ast.unparse(k.value)) for k in c.keywords]
                     passed = [a.id for a in c.args if isinstance(a, ast.Name)] + [k.value.id for k in c.keywords if isinstance(k.value, ast.Name) and k.arg == k.value.id]
-                    slot = '%s->%s' % (mname, c.func.value.attr)
+                    slot = '%s->%s' % (mname, _t)
                     pos_ok = [a.id if isinstance(a, ast.Name) else None for a in c.args] == params[:len(c.args)]
                     if pos_ok and set(passed) == set(params):
                         rep.ok(rule, f.module.rel, f.qual, slot, 'forwards (%s)' % ', '.join(params), c.lineno)
                     else:
                         missing = [p for p in params if p not in passed]
                         rep.fail(rule, f.module.rel, f.qual, slot, '%s() forwards (%s) to self.%s; its own parameters are (%s)%s' % (
-                            mname, ', '.join(got), c.func.value.attr, ', '.join(params),
+                            mname, ', '.join(got), _t, ', '.join(params),
                             (': `%s` never reaches that interpreter, which keeps its default' % missing[0]) if missing else ''), c.lineno)
     return n
 
@@ -471,6 +480,35 @@ def _receiver_attr(f, call_recv, attrs):
     return None
 
 
+def _resolve_receiver(ix, spec, f, recv, attrs):
+    kind = _receiver_attr(f, recv, attrs)
+    if kind is None and isinstance(recv, ast.Name):
+        # a local: follow its single binding
+        binds = [a for a in ast.walk(f.node) if isinstance(a, ast.Assign) and any(isinstance(t, ast.Name) and t.id == recv.id for t in a.targets)]
+        if len(binds) == 1:
+            v = binds[0].value
+            kind = _receiver_attr(f, v, attrs)
+            if kind is None and isinstance(v, ast.Call) and isinstance(v.func, ast.Attribute) and isinstance(v.func.value, ast.Name) and v.func.value.id == 'self':
+                helper = ix.resolve_method(spec, v.func.attr)
+                if helper is not None:
+                    rets = [r for r in ast.walk(helper.node) if isinstance(r, ast.Return) and r.value is not None and not (isinstance(r.value, ast.Constant) and r.value.value is None)]
+                    names = set()
+                    for r in rets:
+                        k = _receiver_attr(helper, r.value, attrs)
+                        if k is None and isinstance(r.value, ast.Name):
+                            bs = [a for a in ast.walk(helper.node) if isinstance(a, ast.Assign) and any(isinstance(t, ast.Name) and t.id == r.value.id for t in a.targets)]
+                            if len(bs) == 1:
+                                k = _receiver_attr(helper, bs[0].value, attrs)
+                        if k is None:
+                            names = None
+                            break
+                        names |= {k[1]} if k[0] == 'one' else set(k[1])
+                    if names:
+                        # a helper that *returns* an interpreter returns one object: at most one of the candidates gets the call
+                        kind = ('first-of', sorted(names))
+    return kind
+
+
 def check_forwarding_reach(ix, rep, rule='R-FWD'):
     """a specification object may hold an online and an offline interpreter at once (the combined classes).  A setting made on the
     specification has to arrive at every interpreter it holds -- a forwarding call per interpreter attribute, conditioned on nothing but that
@@ -495,8 +533,8 @@ def check_forwarding_reach(ix, rep, rule='R-FWD'):
         problems = []
         for c in calls:
             recv = c.func.value
-            kind = _receiver_attr(f, recv, attrs)
-            if kind is None and isinstance(recv, ast.Name):
+            kind = _resolve_receiver(ix, spec, f, recv, attrs)
+            if False:
                 # a local: follow its single binding
                 binds = [a for a in ast.walk(f.node) if isinstance(a, ast.Assign) and any(isinstance(t, ast.Name) and t.id == recv.id for t in a.targets)]
                 if len(binds) == 1:
